@@ -4,6 +4,7 @@ import (
 	"bytes"
 	"encoding/json"
 	"fmt"
+	"os"
 	"reflect"
 	"sort"
 	"strings"
@@ -247,6 +248,31 @@ func init() {
 			out, err := rag.NewExporterWithConfig(cfg).ExportToString(chunks)
 			cfgV := c14ConfigV(cfg)
 			caseV := L(I(0), cfgV, cv)
+			if err == nil && it%5 == 0 {
+				// a file written before is replaced: the same path holds exactly the newest export, whatever was
+				// exported to it before (a longer collection first, then this one, then a filtered one)
+				fp := tmpFile(r, ".export", nil)
+				ex := rag.NewExporterWithConfig(cfg)
+				longer := append(append([]*rag.Chunk{}, chunks...), chunks...)
+				e1 := ex.ExportToFile(longer, fp)
+				e2 := ex.ExportToFile(chunks, fp)
+				got, e3 := os.ReadFile(fp)
+				why := ""
+				if e1 != nil || e2 != nil || e3 != nil {
+					why = fmt.Sprintf("export to a file failed: %v %v %v", e1, e2, e3)
+				} else if string(got) != out {
+					why = fmt.Sprintf("a file exported to twice holds %d bytes, the export itself is %d bytes", len(got), len(out))
+				} else if nc >= 2 {
+					coll := rag.NewChunkCollection(chunks[:1])
+					e4 := coll.ExportToFile(fp, cfg)
+					got2, _ := os.ReadFile(fp)
+					want2, _ := ex.ExportToString(chunks[:1])
+					if e4 != nil || string(got2) != want2 {
+						why = fmt.Sprintf("after exporting one chunk to the same path the file holds %d bytes, the export itself is %d bytes (%v)", len(got2), len(want2), e4)
+					}
+				}
+				r.Check(why == "", "export-to-file", why, caseV)
+			}
 			if err != nil {
 				r.Check(false, "csv-error", "CSV export failed: "+err.Error(), caseV)
 			} else {
